@@ -17,7 +17,9 @@ prop("C12", "Generated files use one line ending: that of the source's first lin
               "R12.2 IOCtx.line_ending is assigned once, from get_line_ending(input_file); every separator written is that field",
               "R12.3 the sanitizers sanitize: their inputs are str::lines() items or directive arguments, and every separator they push is the "
               "line_ending value"],
-     not_decided=["the sniffing function get_line_ending_from_buf (value-level)", "behaviour for a lone CR (outside the domain; lines() keeps it)"])
+     not_decided=["that the buffer handed to the sniffer holds exactly `len` bytes of the first line (a runtime fact about read_until; R12.6 fixes "
+                  "where it comes from, R12.7 which comparisons decide the answer)",
+                  "behaviour for a lone CR (outside the domain; lines() keeps it)"])
 
 prop("C13", "The trailing-newline option controls one final line ending and nothing else",
      decided=["R13.1 in the line processor, the trailing_newline parameter controls exactly one effect: one write_output(line_ending) outside "
@@ -364,6 +366,14 @@ def r13_1(ctx):
                       site=ctx.site(b, 0))
     else:
         ctx.ok("trailing_newline is only tested, never passed on", site=ctx.site(b, 0))
+    # the option is consulted once per file, after the last line: no test of it inside the line loop (a per-line or per-directive decision
+    # that depends on it changes more than the one final line ending, even when it only selects a constant)
+    in_loop = sorted({eid[0] for eid in (t_edges | f_edges) if b.in_cycle(eid[0])})
+    if in_loop:
+        ctx.violation(["flag-tested-in-loop"], "trailing_newline is tested inside the line loop: it influences the text produced for a line or "
+                      "directive, not only the final line ending", site=ctx.site(b, in_loop[0]))
+    else:
+        ctx.ok("trailing_newline is not tested inside the line loop", site=ctx.site(b, min(e[0] for e in t_edges)))
     t_reg = C.exclusive_region(b, t_edges)
     f_reg = C.exclusive_region(b, f_edges) if f_edges else set()
     eff_t = _effect_calls(b, t_reg)
